@@ -120,6 +120,8 @@ def canon_real(v):
         return ('class', v.__name__)
     if hasattr(v, '__next__'):
         return ('gen', [canon_real(x) for x in v])
+    if type(v) is object:
+        return ('obj', 'object')
     return v
 
 
